@@ -581,6 +581,10 @@ func TestVerifC18Stress(t *testing.T) {
 // for the rest (this needs the signal to be re-armed by whoever took an event while more were pending).
 func TestVerifC18Burst(t *testing.T) {
 	vRun(t, "C18.burst", vCount(400, 8000), func(c *vCase) {
+		// one P: the consumers cannot run while the producer is in its burst, so all k notifications
+		// are in the log before the first consumer wakes (the interleaving that needs the re-arm)
+		prev := runtime.GOMAXPROCS(1)
+		defer runtime.GOMAXPROCS(prev)
 		c.Bubble(func() {
 			h := &TopicEventHandler{evtLog: make(map[peer.ID]EventType), evtLogCh: make(chan struct{}, 1)}
 			ctx, cancel := context.WithCancel(context.Background())
